@@ -255,7 +255,9 @@ def run(F, R, tier):
         tab_ = SR.Table(F, fn_, opaque=OP, rule=r3)
         OLDK, OLDP = SR.fld("kty"), SR.fld("params")
         good = bool(tab_.paths)
+        escapes = sorted({k[0].split("|")[-1] for k in r3.fails if k[0].split("|")[-1] in ("deserialize-uncoupled", "unchecked-writer", "mutable-escape")})
         for q in tab_.paths:
+            why_ = ""
             wk = [e.args[1] for e in SR.writes(q, "kty") if sym.term(e.args[0]) == OLDK]
             wp = [e.args[1] for e in SR.writes(q, "params") if sym.term(e.args[0]) == OLDP]
             kfin = wk[-1] if wk else sym.Sym(OLDK)
@@ -266,13 +268,18 @@ def run(F, R, tier):
                     # params reset to the old kty's family, on a path that decided new kty == old kty
                     ok_ = coupled(sym.Sym(OLDK), wp[-1], q)
             else:
-                ok_ = same
+                # keeping the parameters when the new type equals the old one re-establishes nothing: it is sound only as an
+                # inductive step, i.e. when kty == params.kty() holds for every Jwk that can reach this setter — not while a
+                # public writer / the deserialiser can hand out an incoherent one (the escapes found above, known or not)
+                ok_ = same and not escapes
+                if same and escapes:
+                    why_ = " — the parameters are kept on the path that decided `new type == old type`, which assumes they already matched it; they need not: " + ", ".join(escapes)
             if wk and not SR.pure(kfin, SR.param("value")) and sym.term(kfin) != OLDK:
                 ok_ = False
             if not ok_:
                 good = False
                 r3.fail((fn_, "resets"), "Jwk::set_kty leaves kty=%s with params=%s: the parameters are not the new key type's empty parameters — path: %s" % (
-                    sym.fmt(sym.term(kfin)), sym.fmt(sym.term(wp[-1])) if wp else "(unchanged)", q.describe()[:160] or "(unconditional)"))
+                    sym.fmt(sym.term(kfin)), sym.fmt(sym.term(wp[-1])) if wp else "(unchanged)", (q.describe()[:160] or "(unconditional)") + why_))
             if not wk and not same:
                 good = False
         stores = any(SR.writes(q, "kty") for q in tab_.paths)
